@@ -71,42 +71,70 @@ def reaches_real(case):
     return False
 
 
-def shape_part(rng, tier, seed):
+def shape_part(rng, tier, seed, prop="C16", harness="shapes16", focus=None, what=None, want=None):
     """traits from the C05 grammar (every receiver kind incl. the typed spellings `self: &Self` / `self: &mut Self`, arity 0..5, parameter
     classes, sync / async flavours, module and flattened api) that carry an unmock_with list -- entries `_`, path, path(exprs) with `self`
     first / last / absent and shuffled or fewer parameters, receiver-less provided functions occupying slots -- with the method under test
     answered by applies_unmocked(): the registered function must be called once with exactly the mock and the listed values, its result
     returned unchanged (awaited for async); with no function registered the call must panic naming Trait::method"""
     from . import C05
+    focus = focus or (lambda m: m["resp"] == "unmock")
+    what = what or "generated trait with unmock_with compiled with the real macro vs Macro/ShapeRun (C05_unmock_arm / C05_unmock_slot)"
     traits = []
     tries = 0
-    want = 60 if tier == "quick" else 400
+    want = want or (60 if tier == "quick" else 400)
     while len(traits) < want and tries < 20 * want:
         tries += 1
         t = C05.gen_trait(rng, 5)
-        ms = [m for m in t["methods"] if m["resp"] == "unmock"]
+        ms = [m for m in t["methods"] if focus(m)]
         if ms:
             traits.append(t)
     try:
-        cases, impl, model = C05.both(traits, harness="shapes16")
+        cases, impl, model = C05.both(traits, harness=harness)
     except C05.BuildBroken as b:
         ti = b.idx[0] if b.idx else 0
-        return len(traits), {"property": "C16", "seed": seed, "part": "shape",
-                             "theorem_or_correspondence": "correspondence C16 (shape part): a generated trait with unmock_with no longer compiles with the real macro (model: C05_unmock_arm / C05_unmock_slot)",
+        return len(traits), {"property": prop, "seed": seed, "part": "shape",
+                             "theorem_or_correspondence": f"correspondence {prop} (shape part): a generated trait no longer compiles with the real macro ({what})",
                              "case": {"trait": traits[ti], "method": 0}, "rust_trait": C05.rust_trait(0, traits[ti]),
                              "observed_on_implementation": ["DOES-NOT-COMPILE"] + [l for l in b.log.splitlines() if l.startswith("error")][:6],
-                             "replay_cmd": "./check C16 --replay <this file>"}
-    badk = [k for k in range(len(cases)) if traits[cases[k][0]]["methods"][cases[k][1]]["resp"] == "unmock" and C05.proj(impl[k]) != C05.proj(model[k])]
-    n = sum(1 for (ti, mi) in cases if traits[ti]["methods"][mi]["resp"] == "unmock")
+                             "replay_cmd": f"./check {prop} --replay <this file>"}
+    badk = [k for k in range(len(cases)) if focus(traits[cases[k][0]]["methods"][cases[k][1]]) and C05.proj(impl[k]) != C05.proj(model[k])]
+    n = sum(1 for (ti, mi) in cases if focus(traits[ti]["methods"][mi]))
     if not badk:
         return n, None
     ti, mi = cases[badk[0]]
     t1 = copy.deepcopy(traits[ti]); 
-    return n, {"property": "C16", "seed": seed, "part": "shape",
-               "theorem_or_correspondence": "correspondence C16 (shape part): generated trait with unmock_with compiled with the real macro vs Macro/ShapeRun (C05_unmock_arm / C05_unmock_slot)",
+    return n, {"property": prop, "seed": seed, "part": "shape",
+               "theorem_or_correspondence": f"correspondence {prop} (shape part): {what}",
                "case": {"trait": traits[ti], "method": mi}, "rust_trait": C05.rust_trait(ti, traits[ti]), "rust_driver": C05.rust_driver(ti, mi, traits[ti]),
                "coq_case": C05.coq_case(traits[ti], mi), "expected_by_model": model[badk[0]], "observed_on_implementation": impl[badk[0]],
-               "disagreeing_cases_in_run": len(badk), "replay_cmd": "./check C16 --replay <this file>"}
+               "disagreeing_cases_in_run": len(badk), "replay_cmd": f"./check {prop} --replay <this file>"}
+
+
+class ShapePart:
+    """a correspondence part for run_coexec: traits of the C05 shape grammar that contain a method of interest, compiled with the real
+    macro and run against Macro/ShapeRun.v"""
+    def __init__(self, prop, harness, focus, what, want_quick=50, want_thorough=300):
+        self.prop, self.harness, self.focus, self.what, self.want = prop, harness, focus, what, {"quick": want_quick, "thorough": want_thorough}
+
+    def __call__(self, rng, tier, seed, cases):
+        n, payload = shape_part(rng, tier, seed, prop=self.prop, harness=self.harness, focus=self.focus, what=self.what, want=self.want[tier])
+        return n, payload, {"shape_part": {"evaluations": n, "rule": ShapePart.__doc__ + ": " + self.what}}
+
+
+def replay_shape(prop, payload, path, harness):
+    from . import C05
+    t, mi = payload["case"]["trait"], payload["case"]["method"]
+    try:
+        cases, impl, model = C05.both([t], harness=harness)
+    except C05.BuildBroken as b:
+        print("DOES-NOT-COMPILE", [l for l in b.log.splitlines() if l.startswith("error")][:6])
+        C.violation(prop, path); return 1
+    k = next(k for k, (ti, m2) in enumerate(cases) if m2 == mi)
+    print("model:", model[k]); print("impl :", impl[k])
+    if C05.proj(impl[k]) != C05.proj(model[k]):
+        C.violation(prop, path); return 1
+    print("agree"); return 0
 
 
 def run(tier, seed):
